@@ -306,6 +306,10 @@ class SInt(Sym):
 
     # bit operations restricted to what stays arithmetic
     def __lshift__(self, o):
+        if isinstance(o, SInt):
+            k = ctx().concretize(o)
+            if k is not None:
+                o = k
         if isinstance(o, int) and o >= 0:
             return SInt(self.t * (1 << o))
         if isinstance(o, SInt):
@@ -313,9 +317,16 @@ class SInt(Sym):
         raise Unsupported("<< by non-int")
 
     def __rlshift__(self, o):
+        k = ctx().concretize(self)
+        if k is not None and k >= 0:
+            return o << k
         return o * ctx().pow2(self)
 
     def __rshift__(self, o):
+        if isinstance(o, SInt):
+            k = ctx().concretize(o)
+            if k is not None:
+                o = k
         if isinstance(o, int) and o >= 0:
             return SInt(self.t / (1 << o))     # z3 int div by positive const == floor
         raise Unsupported(">> by symbolic amount on int")
@@ -708,6 +719,7 @@ class Ctx:
         self.calls_log = []        # (callee name, args, kwargs) of contract-applied calls
         self.print_log = []
         self.feas_checks = 0
+        self.known_consts = []     # (term, numeral) equalities decided on this path
 
     # -- fresh symbols
     def fresh_name(self, hint):
@@ -859,6 +871,17 @@ class Ctx:
             self.sibling_ok[self.pos] = (ft and ff)
         self.pos += 1
         self.assume(cond if d else z3.Not(cond))
+        rc = raw
+        dd = d
+        while z3.is_not(rc):
+            rc = rc.children()[0]
+            dd = not dd
+        if dd and z3.is_eq(rc):
+            l, r = rc.children()
+            if z3.is_int_value(r) and not z3.is_int_value(l):
+                self.known_consts.append((l, r))
+            elif z3.is_int_value(l) and not z3.is_int_value(r):
+                self.known_consts.append((r, l))
         return d
 
     def prove(self, name, goal, meta=None, kind="post"):
@@ -886,6 +909,10 @@ class Ctx:
         """floor division and modulo on (symbolic) ints -> (q, r)"""
         if isinstance(a, (SReal, float)) or isinstance(b, (SReal, float)):
             raise Unsupported("float // or %")
+        if isinstance(b, SInt) and not isinstance(a, SInt):
+            k = self.concretize(b)
+            if k is not None:
+                b = k
         if isinstance(b, int) and not isinstance(b, bool):
             if b == 0:
                 raise RaiseSig(ZeroDivisionError("integer division or modulo by zero"))
@@ -918,6 +945,23 @@ class Ctx:
                 self.assume(z3.And(bt < r, r <= 0))
             self._divmod[key] = (q, r, pos)
         return SInt(q), SInt(r)
+
+    def concretize(self, v):
+        """python int if the path condition entails a single value for the symbolic int, else None"""
+        if isinstance(v, int):
+            return v
+        t = _i(v)
+        if self.known_consts:
+            ts = z3.simplify(z3.substitute(t, *self.known_consts))
+            if z3.is_int_value(ts):
+                return ts.as_long()
+        if self.solver.check() != z3.sat:
+            return None
+        m = self.solver.model().eval(t, model_completion=True)
+        if not z3.is_int_value(m):
+            return None
+        k = m.as_long()
+        return k if not self._feasible(t != k) else None
 
     def _match_div_const(self, at, b):
         """a == A*b + k with a numeral 0 <= k < b  =>  (A, k)   (syntactic, exact)"""
@@ -983,6 +1027,9 @@ class Ctx:
 
     def pow2(self, e):
         """2 ** e for symbolic int e >= 0 (uninterpreted, with instantiated lemmas)."""
+        k = self.concretize(e) if isinstance(e, SInt) else None
+        if k is not None and 0 <= k <= 4096:
+            return 1 << k
         et = _i(e)
         if self.fork(et < 0):
             raise Unsupported("2 ** negative (float result)")
